@@ -22,11 +22,10 @@ let vchain_of s = if s = "none" then None else Some (List.map cert_of (String.sp
 let opt_hex s = if s = "err" then None else Some (unhex s)
 let wait_of = function "ok" -> 0 | "full" -> 1 | "evicted" -> 2 | "sunset" -> 3 | _ -> 4
 let state = ref (fst (run_load sha [] [] false))
-let starts_with p s = String.length s >= String.length p && String.sub s 0 (String.length p) = p
 let () =
   iter_lines (fun line ->
     match split_bar line with
-    | op :: _ when starts_with "dev_" op || op = "stat" -> print_string line; print_newline ()
+    | op :: _ when op = "stat" -> print_string line; print_newline ()
     | op :: rest ->
       let args = take_until_arrow [] rest in
       let res = match op, args with
